@@ -587,13 +587,3 @@ package protocol
 //@   loop 0:
 //@     invariant 0 <= i && i <= n && n == len(h)
 //@     invariant forall(k, 0, len(h), h[k].noValue == old(h[k].noValue) && sameSlice(h[k].value, old(h[k].value)))
-
-// C11 (configuration survives a read): clearing a response header for the next message keeps the switch that
-// turns header-name normalisation off.
-//@ func ResponseHeader.ResetSkipNormalize(h)
-//@   props C11
-//@   requires h != nil
-//@   modifies h._all, alltype(protocol.Trailer)
-//@   allocates
-//@   top-ensures h.disableNormalizing == old(h.disableNormalizing)
-
